@@ -5,6 +5,7 @@ package main
 
 import (
 	"fmt"
+	"go/ast"
 	"go/token"
 	"go/types"
 	"os"
@@ -476,6 +477,53 @@ func missingColumnsTest(ce condEdge, file ssa.Value) *ssa.Call {
 		}
 		return nil
 	}
+	// a predicate of the module that is handed the file and answers false only behind the "nothing missing" edge of
+	// such a test of its own (it may print or record what is missing before it answers true)
+	{
+		cond, val := ce.Cond, ce.Val
+		for {
+			u, isNot := cond.(*ssa.UnOp)
+			if !isNot || u.Op != token.NOT {
+				break
+			}
+			cond, val = u.X, !val
+		}
+		if pc, isCall := cond.(*ssa.Call); isCall && !val && len(pc.Call.Args) > 0 && pc.Call.Args[0] == file {
+			if h := pc.Call.StaticCallee(); h != nil && h.Parent() == nil && fnPkgPath(h) == modPath && len(h.Blocks) > 0 && len(h.Params) > 0 && h.Signature.Results().Len() == 1 && shortType(h.Signature.Results().At(0).Type()) == "bool" {
+				okPred, nFalse := true, 0
+				for _, hb := range h.Blocks {
+					ret, isRet := hb.Instrs[len(hb.Instrs)-1].(*ssa.Return)
+					if !isRet {
+						continue
+					}
+					bv, isC := constBool(ret.Results[0])
+					if !isC {
+						okPred = false
+						continue
+					}
+					if bv {
+						continue
+					}
+					nFalse++
+					here := false
+					for _, ice := range dominatingConds(hb) {
+						if _, isInnerCall := ice.Cond.(*ssa.Call); isInnerCall {
+							continue
+						}
+						if missingColumnsTest(ice, h.Params[0]) != nil {
+							here = true
+						}
+					}
+					if !here {
+						okPred = false
+					}
+				}
+				if okPred && nFalse > 0 {
+					return pc
+				}
+			}
+		}
+	}
 	bo, ok := ce.Cond.(*ssa.BinOp)
 	if !ok {
 		return nil
@@ -561,6 +609,79 @@ func csvSideObligations(c *Ctx) {
 			}
 		})
 		c.Check(ok && seen, "CSV", shortName(nextRow), "NextRow() == true leaves currentRow non-nil", p.pos(nextRow.Pos()), "on every path returning true the cell f.currentRow holds a non-nil row", "NextRow can return true while currentRow is nil")
+	}
+	// the accessors hand out the cell as the reader produced it: what a Read / ReadOr method of a column type returns
+	// is a constant, its argument (the default), or an element of a slice of strings -- never the result of a function
+	// applied to the cell (trimming, case folding: ids then no longer match the ids read through another accessor)
+	for _, fn := range p.ModFns {
+		if fn.Signature.Recv() == nil || len(fn.Blocks) == 0 || fn.Signature.Results().Len() != 1 {
+			continue
+		}
+		rt := typeName(fn.Signature.Recv().Type())
+		if !strings.HasSuffix(rt, "csv.OptionalColumn") && !strings.HasSuffix(rt, "csv.RequiredColumn") {
+			continue
+		}
+		if bt, ok := fn.Signature.Results().At(0).Type().Underlying().(*types.Basic); !ok || bt.Info()&types.IsString == 0 {
+			continue
+		}
+		if !ast.IsExported(fn.Name()) {
+			continue
+		}
+		bad := ""
+		seen := map[ssa.Value]bool{}
+		var leaf func(v ssa.Value, d int)
+		leaf = func(v ssa.Value, d int) {
+			if seen[v] || bad != "" {
+				return
+			}
+			seen[v] = true
+			switch x := v.(type) {
+			case *ssa.Const, *ssa.Parameter:
+			case *ssa.Phi:
+				for _, e := range x.Edges {
+					leaf(e, d)
+				}
+			case *ssa.UnOp:
+				if x.Op == token.MUL {
+					if _, isIdx := x.X.(*ssa.IndexAddr); isIdx {
+						return
+					}
+					if al, isAlloc := x.X.(*ssa.Alloc); isAlloc {
+						for _, sv := range cellStores(al) {
+							leaf(sv, d)
+						}
+						return
+					}
+				}
+				bad = x.String() + " at " + p.ipos(x)
+			case *ssa.Call:
+				if h := staticCallee(x); h != nil && p.isModuleFn(h) && len(h.Blocks) > 0 && d < 3 && fnPkgPath(h) == fnPkgPath(fn) {
+					for _, hb := range h.Blocks {
+						if ret, isRet := hb.Instrs[len(hb.Instrs)-1].(*ssa.Return); isRet {
+							for _, rv := range ret.Results {
+								if bt, ok := rv.Type().Underlying().(*types.Basic); ok && bt.Info()&types.IsString != 0 {
+									leaf(rv, d+1)
+								}
+							}
+						}
+					}
+					return
+				}
+				bad = "the result of " + calleeName(x) + " at " + p.ipos(x)
+			default:
+				if in, isIn := v.(ssa.Instruction); isIn {
+					bad = v.String() + " at " + p.ipos(in)
+				} else {
+					bad = v.String()
+				}
+			}
+		}
+		for _, b := range fn.Blocks {
+			if ret, isRet := b.Instrs[len(b.Instrs)-1].(*ssa.Return); isRet {
+				leaf(ret.Results[0], 0)
+			}
+		}
+		c.Check(bad == "", "CSV", shortName(fn), "the cell is handed out as read", p.pos(fn.Pos()), "every answer is a constant, the default argument or an element of the record", "the accessor answers "+bad+": the text of a cell is changed on its way to the parsers (ids read through this accessor no longer equal the ids read through the others)")
 	}
 	// column index provenance
 	for _, spec := range []string{"csv:(*File).RequiredColumn", "csv:(*File).OptionalColumn"} {
